@@ -53,7 +53,7 @@ package redisemu
 //@ ensures internal [C02] clamp.empty: valid == VALUE_EXISTS && specRangeEmpty(len(str), int(start64), int(end64)) ==> output.data == respBulkString("")
 //@ ensures internal [C02] clamp.range: valid == VALUE_EXISTS && !specRangeEmpty(len(str), int(start64), int(end64)) ==> output.data == respBulkString(str[specRangeFrom(len(str), int(start64)) : specRangeLast(len(str), int(end64))+1])
 //@ ensures internal [C02] wrongtype: valid == VALUE_WRONG_TYPE ==> output.data == wrongTypeError
-//@ ensures internal [C02] missing: valid != VALUE_WRONG_TYPE && valid != VALUE_EXISTS ==> output.data == nil
+//@ ensures internal [C02] missing: valid != VALUE_WRONG_TYPE && valid != VALUE_EXISTS ==> output.data == respBulkString("")
 
 // C07: GETEX changes the deadline only when an expiration option is given
 //@ func fnGetEx
